@@ -68,3 +68,15 @@ func TestValidateMatchIndex(t *testing.T) {
 		t.Errorf("specific + wildcard should be allowed, got: %v", err)
 	}
 }
+
+func TestValidateMatchIndexRejectsUnparseableRange(t *testing.T) {
+	for _, vr := range []VLANRange{
+		{SVLAN: "5000"}, {SVLAN: "0"}, {SVLAN: "10-"}, {SVLAN: "20-10"}, {SVLAN: ""},
+		{SVLAN: "100", CVLAN: "4095"}, {SVLAN: "100", CVLAN: "0"}, {SVLAN: "100", CVLAN: "10-20"},
+	} {
+		cfg := groups(map[string]*SubscriberGroup{"a": {VLANs: []VLANRange{{SVLAN: "100", CVLAN: "10"}, vr}}})
+		if err := ValidateMatchIndex(cfg); err == nil {
+			t.Errorf("svlan %q cvlan %q: expected an error, the range would be silently dropped from the index", vr.SVLAN, vr.CVLAN)
+		}
+	}
+}
